@@ -168,6 +168,21 @@ class RRELNavigation(RRELBase):
     def start_at_root(self):
         return True
 
+    def get_next_matches(
+        self, obj, lookup_list, allowed, matched_path, first_element=False
+    ):
+        from textx.scoping import Postponed
+
+        named = self.consume_name or self.fixed_name is not None
+        for iobj, ilookup_list, imatched_path in super().get_next_matches(
+            obj, lookup_list, allowed, matched_path, first_element
+        ):
+            if named and not isinstance(iobj, Postponed):
+                # every object matched by name is a candidate (siblings may
+                # share a name and differ in type); each extends the path
+                imatched_path = imatched_path + [iobj]
+            yield iobj, ilookup_list, imatched_path
+
     def apply(self, obj, lookup_list, matched_path, first_element):
         """
         Args:
@@ -175,7 +190,7 @@ class RRELNavigation(RRELBase):
             lookup_list: non-empty name list
 
         Returns:
-            The object indicated by the navigation object,
+            The object(s) indicated by the navigation object,
             Postponed, None, or a list (if a list has to be processed).
         """
         assert self.rrel_expression is not None
@@ -220,11 +235,8 @@ class RRELNavigation(RRELBase):
                             )
                         )
                         if len(lst) > 0:
-                            return (
-                                lst[0],
-                                lookup_list,
-                                matched_path + [lst[0]],
-                            )  # return obj
+                            # all objects with that name (see get_next_matches)
+                            return lst, lookup_list, matched_path
                         else:
                             return None, lookup_list, matched_path  # return None
                     else:
@@ -235,11 +247,8 @@ class RRELNavigation(RRELBase):
                             )
                         )
                         if len(lst) > 0:
-                            return (
-                                lst[0],
-                                lookup_list[1:],
-                                matched_path + [lst[0]],
-                            )  # return obj
+                            # all objects with that name (see get_next_matches)
+                            return lst, lookup_list[1:], matched_path
                         else:
                             return None, lookup_list, matched_path  # return None
             else:
